@@ -12,8 +12,9 @@ consumer entities).  Drivers:
                subscribe / unsubscribe per subscriber} x subscribers {2,3} x latency {0, 0.25 s}.
 * ``eventlog`` EventLog: appends (single and concurrent) / reads / waits under every retention
                setting x partitions {1,2,3} (props/c19_stream.py).
-* ``group``    ConsumerGroup: every join/leave order of <= 3 members x strategies x partitions
-               {1..4} x rebalance delay {shorter, longer than a tick}.
+* ``group``    ConsumerGroup: every join/leave order of <= 3 members (quick: membership toggles, <= 6 ops;
+               thorough: toggles <= 7 ops and, incl. redundant joins / leaves, <= 5 ops) x 3 strategies x
+               partitions {1..4} x rebalance delay {shorter, longer than a tick}.
 * ``commit``   ConsumerGroup commit sequences incl. stale commits, interleaved with rebalances.
 * ``outbox`` / ``idem`` / ``stream`` (thorough): OutboxRelay, IdempotencyStore, StreamProcessor.
 """
